@@ -10,6 +10,9 @@ cd "$WT" || exit 2
 git diff -- . ':!seed_demo*' > $(dirname $WT)/$P.patch
 [ -s $(dirname $WT)/$P.patch ] || { echo "no diff in $WT"; exit 2; }
 [ -n "${SKIP_CONFIRM:-}" ] || /verif/tools/confirm_seed.sh "$WT" "$WT/seed_demo.sh" 2>&1 | tail -15
+# the worktree may predate hooks added to /repo since it was made: overlay the verif-tagged files for the trial
+HOOKS=$(cd /repo && grep -rl '^//go:build verif' --include=*.go . | grep -v _test.go)
+for h in $HOOKS; do cp /repo/$h $WT/$h; done
 ISO=$(mktemp -d /tmp/vtrial-$P-XXXX)
 rsync -a --exclude build --exclude .git /verif/ $ISO/
 sed -i "s#=> /repo#=> $WT#" $ISO/harness/go.mod
@@ -17,3 +20,6 @@ mkdir -p $ISO/build
 for c in $CHECKS; do (cd $ISO && VERIF_REPO=$WT ./check $c quick 2>&1 | tail -6); done
 mkdir -p $(dirname $WT)/replays-$P && cp $ISO/evidence/replay/$P-* $(dirname $WT)/replays-$P/ 2>/dev/null
 rm -rf $ISO
+for h in $HOOKS; do
+  if git -C $WT ls-files --error-unmatch $h >/dev/null 2>&1; then git -C $WT checkout -- $h; else rm -f $WT/$h; fi
+done
